@@ -9,6 +9,8 @@ Not decided: numeric accumulation over a simulated history, traversal of a concr
 import re
 
 from verif import core
+from verif.alpha import Inliner
+from verif import symb as sy
 from verif.tree import walk, show, stmt_list, meth, strip
 
 LEVEL = "other"
@@ -823,6 +825,176 @@ def run(chk):
         chk.instance(r_ac, key, sample=det)
         if not ok:
             chk.violation(r_ac, key, "SummaryState::%s must add the value to every one of its storages %s when is_total(keyword) holds and assign it to every one of them otherwise; found %s: a cumulative would be overwritten, a rate accumulated, or the two storages of one key diverge" % (f["n"], refs_, det), f["file"], f["l"])
+
+    # ---- C09.tree: which wells a vector aggregates, and where its value goes
+    r_tr = chk.rule("C09.tree", "Summary.cpp: find_wells picks the wells of a vector by its category - the named well for well/connection/completion/segment vectors, all wells below the named group (breadth-first over the group tree from index 0, a well group contributes all its wells, any other group all its child groups) for group vectors, every well for field vectors, the wells connected in the region for region vectors; efac() looks a factor up by name and falls back to 1; updateValue stores the value in the SummaryState slot of the vector's category (well, group/node, connection, segment, region, general) with name, keyword and number of the node", floor=14)
+    sm = chk.facts(["opm/output/eclipse/Summary.cpp"])
+
+    def one(name):
+        c = [f for f in sm.fns if f["n"] == name and f.get("body") and f["file"].endswith("Summary.cpp")]
+        if len(c) != 1:
+            raise core.AnalysisBroken("Summary.cpp: %s: %d definitions" % (name, len(c)))
+        return c[0]
+
+    def switch_table(f):
+        sws = [n for n in walk(f["body"]) if n["k"] == "Switch"]
+        if len(sws) != 1:
+            raise core.AnalysisBroken("%s: one switch expected" % f["q"])
+        table, labels, cur = {}, [], None
+        for st_ in sws[0]["body"]["c"]:
+            x = st_
+            new_labels = []
+            while x.get("k") in ("Case", "Default"):
+                new_labels.append(strip(x["v"]).get("n") if x["k"] == "Case" else "default")
+                x = x.get("sub") or {"k": "Null_"}
+            while x.get("k") == "Attributed" and x.get("sub"):
+                x = x["sub"]
+            if new_labels:
+                if cur is None or cur["closed"]:
+                    cur = dict(labels=[], stmts=[], closed=False)
+                    labels.append(cur)
+                cur["labels"] += new_labels
+            if cur is None:
+                continue
+            if x.get("k") in ("Break",):
+                cur["closed"] = True
+            elif x.get("k") in ("Return", "Throw"):
+                cur["stmts"].append(show(x))
+                cur["closed"] = True
+            elif x.get("k") not in ("Null_", None):
+                cur["stmts"].append(show(x))
+        for g in labels:
+            for l_ in g["labels"]:
+                table[l_] = g["stmts"]
+        return table, show(sws[0]["cond"])
+
+    def tr_clause(key, f, ok, found, want, line=None):
+        chk.instance(r_tr, key, sample=dict(found=found))
+        if not ok:
+            chk.violation(r_tr, key, "%s: %s; required: %s" % (f["q"].split("::")[-1], found, want), f["file"], line or f["l"])
+    fw = one("find_wells")
+    tb, cnd = switch_table(fw)
+    sched_p, node_p, step_p, rc_p = [p_["n"] for p_ in fw["params"]]
+    WANT_FW = {"Well": "find_single_well(%s, %s.wgname, %s)" % (sched_p, node_p, step_p), "Connection": None, "Completion": None, "Segment": None,
+               "Group": "find_group_wells(%s, %s.wgname, %s)" % (sched_p, node_p, step_p), "Field": "find_field_wells(%s, %s)" % (sched_p, step_p),
+               "Region": "find_region_wells(%s, %s, %s, %s)" % (sched_p, node_p, step_p, rc_p)}
+    for lab in ("Connection", "Completion", "Segment"):
+        WANT_FW[lab] = WANT_FW["Well"]
+    for lab, want in WANT_FW.items():
+        got = [re.sub(r"\(anonymous namespace\)::", "", t) for t in tb.get(lab, [])]
+        tr_clause("find_wells:" + lab, fw, got == ["return %s;" % want] and cnd == "%s.category" % node_p, got, "return %s" % want)
+    for lab in ("Aquifer", "Block", "Node", "Miscellaneous"):
+        got = tb.get(lab, [])
+        tr_clause("find_wells:" + lab, fw, len(got) == 1 and got[0].startswith("return") and "find_" not in got[0], got, "no wells")
+    fg = one("find_group_wells")
+    sp, gp, tp = [p_["n"] for p_ in fg["params"]]
+    inl_g = Inliner(fg)
+    loops_g = [n for n in stmt_list(fg["body"]) if n["k"] == "For"]
+    decl_g = {v["n"]: show(v.get("init")) for n in stmt_list(fg["body"]) if n["k"] == "Decl" for v in n["vars"]}
+    queue = [k_ for k_, v in decl_g.items() if re.search(r"vector<std::string>\{\{?%s\}?(, <default>)?\}$" % re.escape(gp), v)]
+    outv = [k_ for k_, v in decl_g.items() if v.endswith("vector<const Opm::Well *>{}")]
+    okq = len(queue) == 1 and len(outv) == 1 and len(loops_g) == 1
+    tr_clause("find_group_wells:queue", fg, okq, decl_g, "a work list that starts as {group name} and an empty result")
+    if okq:
+        q_, o_ = queue[0], outv[0]
+        lp = loops_g[0]
+        iv = lp["init"]["vars"][0]["n"]
+        st0 = sy.Eval(lambda e: sy.S("n") if e.get("k") in ("MCall", "Call") else None, set()).term(lp["init"]["vars"][0]["init"], {})
+        tr_clause("find_group_wells:loop", fg, st0 == sy.I(0) and show(lp["cond"]) == "(%s < %s.size())" % (iv, q_) and show(lp.get("inc")) in ("(++%s)" % iv, "(%s++)" % iv), "for (%s = %s; %s; %s)" % (iv, show(lp["init"]["vars"][0]["init"]), show(lp["cond"]), show(lp.get("inc"))), "index from 0 while < worklist.size(), step 1 (the list grows while it is walked)", lp["l"])
+        body_g = stmt_list(lp["body"])
+        ifs_g = [n for n in body_g if n["k"] == "If"]
+        gdecl = {v["n"]: show(strip(v["init"])) for n in body_g if n["k"] == "Decl" for v in n["vars"] if isinstance(v.get("init"), dict)}
+        gv = [k_ for k_, v in gdecl.items() if v == "%s[%s].groups.get(%s[%s])" % (sp, tp, q_, iv) or re.fullmatch(r"\w+\.groups\.get\(%s\[%s\]\)" % (q_, iv), v)]
+        okb = len(ifs_g) == 1 and len(gv) == 1
+        if okb:
+            g_ = gv[0]
+            iff = ifs_g[0]
+            th, el = show(iff["then"]), show(iff.get("else")) if iff.get("else") is not None else ""
+            okb = (show(strip(iff["cond"])) == "%s.wellgroup()" % g_ and "std::transform(%s.wells().begin(), %s.wells().end(), std::back_inserter(%s)" % (g_, g_, o_) in th
+                   and re.search(r"%s\.insert\((?:[\w:<>, ]*\{)?%s\.end\(\)\}?, (\w+)\.begin\(\), \1\.end\(\)\)" % (q_, q_), el) is not None and "%s.groups()" % g_ in el)
+        tr_clause("find_group_wells:step", fg, okb, [show(x)[:200] for x in ifs_g], "group = groups.get(worklist[i]); if (group.wellgroup()) append all group.wells() to the result, else append all group.groups() to the end of the work list", lp["l"])
+        tail_g = [show(x) for x in stmt_list(fg["body"])[-2:]]
+        tr_clause("find_group_wells:result", fg, len(tail_g) == 2 and tail_g[1] == "return %s;" % o_ and "sort_wells_by_insert_index(%s)" % o_ in tail_g[0], tail_g, "sorted by insertion index and returned")
+    ff = one("find_field_wells")
+    ft = show(ff["body"])
+    fdecl = {v["n"]: show(strip(v["init"])) for n in stmt_list(ff["body"]) if n["k"] == "Decl" for v in n["vars"] if isinstance(v.get("init"), dict)}
+    wl = [k_ for k_, v in fdecl.items() if v.endswith("].wells")]
+    ks = [k_ for k_, v in fdecl.items() if wl and v == "%s.keys()" % wl[0]]
+    tr_clause("find_field_wells", ff, len(wl) == 1 and len(ks) == 1 and "std::transform(%s.begin(), %s.end(), std::back_inserter(" % (ks[0], ks[0]) in ft, ft[:300], "every key of the step's well map is transformed into the result")
+    so = one("sort_wells_by_insert_index")
+    lam = [x for x in walk(so["body"]) if x["k"] == "Lambda"]
+    cmp_t = ""
+    if len(lam) == 1 and len(lam[0].get("params") or []) == 2:
+        a_, b_ = [p_["n"] for p_ in lam[0]["params"]]
+        rr = [n for n in walk(lam[0]["body"]) if n["k"] == "Return"]
+        cmp_t = show(rr[0]["e"]) if len(rr) == 1 else ""
+        okc = cmp_t in ("(%s.seqIndex() < %s.seqIndex())" % (a_, b_), "(%s.seqIndex() > %s.seqIndex())" % (b_, a_), "(%s.seqIndex() <= %s.seqIndex())" % (a_, b_))
+    else:
+        okc = False
+    tr_clause("sort_wells_by_insert_index", so, okc, cmp_t, "ascending Well::seqIndex()")
+    ef = one("efac")
+    lam = [x for x in walk(ef["body"]) if x["k"] == "Lambda"]
+    lt = show(lam[0]["body"]) if len(lam) == 1 else ""
+    lp_ = lam[0]["params"][0]["n"] if len(lam) == 1 and lam[0].get("params") else "?"
+    rets_e = [show(n["e"]) for n in walk(ef["body"], skip_lambda=True) if n["k"] == "Return" and isinstance(n.get("e"), dict)]
+    lst_p, nm_p = [p_["n"] for p_ in ef["params"]]
+    oke = lt == "{ return (%s.first == %s); }" % (lp_, nm_p) and len(rets_e) == 1 and re.fullmatch(r"\(\((\w+) != %s\.end\(\)\) \? \(?->?\(?\1\)?\)?\.second : 1(\.0)?\)" % lst_p, rets_e[0]) is not None
+    tr_clause("efac", ef, oke, "%s | %s" % (lt, rets_e), "find the pair whose first == name; its second if found, else 1.0")
+    uv = one("updateValue")
+    tb, cnd = switch_table(uv)
+    np_, vp_, stp_ = [p_["n"] for p_ in uv["params"]]
+    WANT_UV = {"Well": "%s.update_well_var(%s.wgname, %s.keyword, %s)" % (stp_, np_, np_, vp_), "Group": "%s.update_group_var(%s.wgname, %s.keyword, %s)" % (stp_, np_, np_, vp_),
+               "Connection": "%s.update_conn_var(%s.wgname, %s.keyword, %s.number, %s)" % (stp_, np_, np_, np_, vp_), "Segment": "%s.update_segment_var(%s.wgname, %s.keyword, %s.number, %s)" % (stp_, np_, np_, np_, vp_),
+               "default": "%s.update(%s.unique_key(), %s)" % (stp_, np_, vp_)}
+    WANT_UV["Node"] = WANT_UV["Group"]
+    for lab, want in WANT_UV.items():
+        got = tb.get(lab, [])
+        tr_clause("updateValue:" + lab, uv, got == [want] and cnd == "%s.category" % np_, got, want)
+    gotr = tb.get("Region", [])
+    tr_clause("updateValue:Region", uv, len(gotr) == 1 and gotr[0].startswith("%s.update_region_var(" % stp_) and gotr[0].endswith(", %s.keyword, %s.number, %s)" % (np_, np_, vp_)) and "%s.fip_region" % np_ in gotr[0], gotr, "st.update_region_var(<region set of the node>, node.keyword, node.number, value)")
+
+    # SummaryState: elapsed time and the route of UDQ results into the per-category slots
+    ss = chk.facts(["opm/input/eclipse/Schedule/SummaryState.cpp"])
+    ue = [f for f in ss.fns if f["n"] == "update_elapsed" and f.get("body")]
+    uu = [f for f in ss.fns if f["n"] == "update_udq" and f.get("body")]
+    if len(ue) != 1 or len(uu) != 1:
+        raise core.AnalysisBroken("SummaryState::update_elapsed / update_udq not found")
+    ue, uu = ue[0], uu[0]
+    et = [show(x) for x in stmt_list(ue["body"])]
+    tr_clause("update_elapsed", ue, et == ["(this.elapsed += %s)" % ue["params"][0]["n"]], et, "elapsed += delta")
+    up = uu["params"][0]["n"]
+    chain = {}
+    node = [n for n in stmt_list(uu["body"]) if n["k"] == "If"]
+    cur = node[0] if len(node) == 1 else None
+    vt = [v["n"] for n in stmt_list(uu["body"]) if n["k"] == "Decl" for v in n["vars"] if show(v.get("init")) == "%s.var_type()" % up]
+    while cur is not None and cur.get("k") == "If":
+        c = strip(cur["cond"])
+        lab = strip(c["c"][1]).get("n") if c.get("k") == "Bin" and c.get("op") == "==" and vt and show(strip(c["c"][0])) == vt[0] else show(c)
+        chain[lab] = cur["then"]
+        nxt = cur.get("else")
+        if isinstance(nxt, dict) and nxt.get("k") == "Block" and len(stmt_list(nxt)) == 1 and stmt_list(nxt)[0].get("k") == "If":
+            nxt = stmt_list(nxt)[0]
+        if isinstance(nxt, dict) and nxt.get("k") != "If":
+            chain["else"] = nxt
+            nxt = None
+        cur = nxt
+    WANT_UU = {"WELL_VAR": "this.update_well_var($v.wgname(), %s.name(), $v.value().value_or(this.udq_undefined))" % up,
+               "GROUP_VAR": "this.update_group_var($v.wgname(), %s.name(), $v.value().value_or(this.udq_undefined))" % up,
+               "SEGMENT_VAR": "this.update_segment_var($v.wgname(), %s.name(), $v.number(), $v.value().value_or(this.udq_undefined))" % up}
+    for lab, want in WANT_UU.items():
+        br = chain.get(lab)
+        got = None
+        if br is not None:
+            lps = [n for n in stmt_list(br) if n["k"] == "ForRange" and show(n["range"]) == up]
+            if len(lps) == 1 and len(stmt_list(br)) == 1:
+                got = [re.sub(r"(?<![\w.$])%s\b" % re.escape(lps[0]["var"]["n"]), "$v", show(x)) for x in stmt_list(lps[0]["body"])]
+        tr_clause("update_udq:" + lab, uu, got == [want], got, "for every element v of the set: " + want)
+    br = chain.get("else")
+    got = None
+    if br is not None:
+        inl_u = Inliner(uu)
+        got = [inl_u.render(x, roles={up: "S"}) for x in stmt_list(br) if x["k"] != "Decl"]
+    tr_clause("update_udq:scalar", uu, got == ["this.update($S.name(), $S[0].value().value_or(this.udq_undefined))"], got, "update(name, first element's value or the undefined value)")
 
     chk.assumptions += [
         "the mnemonic grammar in rules/C09.py encodes the documented Eclipse naming of summary vectors",
